@@ -294,11 +294,15 @@ def check_sensitivity(spec, ctx):
 
 
 @st.composite
-def strat_obj(draw, tier="quick", kinds=("collection", "collection", "collection", "gene", "fc", "tx", "feat", "vc")):
+def strat_obj(draw, tier="quick", kinds=("collection", "collection", "collection", "gene", "fc", "tx", "feat", "vc", "cds")):
     kind = draw(st.sampled_from(kinds))
     if kind == "collection":
         o = draw(S.collection_spec())
         hi = o.pop("hi")
+    elif kind == "cds":
+        o = draw(S.cds_spec(max_k=4, max_len=8, overlap_prob=6))
+        o.pop("genome")
+        hi = o["blocks"][-1][1]
     elif kind == "gene":
         o = draw(S.gene_spec(max_tx=3, max_exons=3, max_len=8, cds_overlap_prob=8))
         hi = max(t["exons"][-1][1] for t in o["transcripts"])
@@ -355,7 +359,7 @@ def _lo(kind, o):
         return min(f["blocks"][0][0] for f in o["features"])
     if kind == "tx":
         return o["exons"][0][0]
-    if kind == "feat":
+    if kind in ("feat", "cds"):
         return o["blocks"][0][0]
     return min(v["start"] for v in o["variants"])
 
